@@ -98,6 +98,10 @@ def run_tlc(module, cfg, env=None, workers=1, timeout=900, extra=(), heap="2g", 
     m = re.search(r"(\d+) states generated, (\d+) distinct states found", out)
     if m:
         r["states"], r["distinct"] = int(m.group(1)), int(m.group(2))
+    else:
+        m = re.search(r"The number of states generated: (\d+)", out)          # simulation mode
+        if m:
+            r["states"] = r["distinct"] = int(m.group(1))
     if p.returncode == 124:
         raise ToolFailure("TLC timeout on %s (%ss)" % (module, timeout))
     return r
@@ -341,7 +345,7 @@ def run_generators(pid, gens, tier, seed, outdir):
         cfg = d["quick"] if tier == "quick" else d.get("thorough", d["quick"])
         sim = d.get("simulate_quick") if tier == "quick" else d.get("simulate_thorough")
         r = run_tlc(d["module"], cfg, workers=d.get("workers", 1), timeout=d.get("timeout", 1800), heap=d.get("heap", "4g"),
-                    simulate=(sim.replace("SEED", str(seed)) if sim else None), extra=(["-seed", str(seed)] if sim else []))
+                    simulate=(sim.replace("SEED", str(seed)) if sim else None), extra=((["-seed", str(seed + d.get("seed_add", 0))] + d.get("extra", [])) if sim else d.get("extra", [])))
         ok = "No error has been found" in r["out"] or (sim and "Progress" in r["out"]) or sim
         lines = [m.group(1) for m in re.finditer(r'<<"REPLAY", "(.*)">>\s*$', r["out"], re.M)]
         if tlc_failed(r) or not lines:
